@@ -18,9 +18,24 @@ fn log(v: Value) -> R {
     Ok(v)
 }
 
+/// `y` inside a comprehension body; the second argument names the iteration variable
+fn yc(v: Value, var: std::sync::Arc<String>) -> R {
+    tls::stub_yc(var.as_str());
+    Ok(v)
+}
+
+/// `boom` inside a comprehension body (same fault plan, separate reach probe)
+fn boomc(ftx: &FunctionContext, v: Value) -> R {
+    if tls::stub_boom(true) {
+        Err(ftx.error("injected fault"))
+    } else {
+        Ok(v)
+    }
+}
+
 /// identity unless the fault plan of the current execution says this call fails
 fn boom(ftx: &FunctionContext, v: Value) -> R {
-    if tls::stub_boom() {
+    if tls::stub_boom(false) {
         Err(ftx.error("injected fault"))
     } else {
         Ok(v)
@@ -48,6 +63,8 @@ pub fn register(ctx: &mut Context, override_builtin: bool) {
     ctx.add_function("y", y);
     ctx.add_function("log", log);
     ctx.add_function("boom", boom);
+    ctx.add_function("yc", yc);
+    ctx.add_function("boomc", boomc);
     ctx.add_function("pick", pick);
     if override_builtin {
         ctx.add_function("size", size_override);
